@@ -259,6 +259,9 @@ var $send = (chan, value) => {
         return;
     }
 
+    if ($curGoroutine === $noGoroutine) {
+        $block(); /* throws before anything is queued: nothing may be left waiting on behalf of a JavaScript callback */
+    }
     var thisGoroutine = $curGoroutine;
     var closedDuringSend;
     chan.$sendQueue.push(closed => {
@@ -288,6 +291,9 @@ var $recv = chan => {
         return [chan.$elem.zero(), false];
     }
 
+    if ($curGoroutine === $noGoroutine) {
+        $block(); /* throws before anything is queued */
+    }
     var thisGoroutine = $curGoroutine;
     var f = { $blk() { return this.value; } };
     var queueEntry = v => {
@@ -363,6 +369,9 @@ var $select = comms => {
         }
     }
 
+    if ($curGoroutine === $noGoroutine) {
+        $block(); /* throws before anything is queued */
+    }
     var entries = [];
     var thisGoroutine = $curGoroutine;
     var closedDuringSend = false;
